@@ -13,6 +13,7 @@
 
   Also here: `outcome_independent_of_fuel` - the outcome of a program does not depend on the fuel that found it.
 -/
+import TshVerif.Lemmas.ParserImportsPub
 import TshVerif.Lemmas.Sem2Clean
 import TshVerif.Sem2.Cover
 namespace Tsh.C09
@@ -68,5 +69,15 @@ example : callsTop ["live"] cleanSample = true := by decide
 example : (cleanP ["live"] cleanSample).length = 2 := by decide
 #guard runProgram 50 cleanSample == some (0, ["42"])
 #guard runProgram 50 (cleanP ["live"] cleanSample) == some (0, ["42"])
+
+/-- **Private names do not cross an import**: whatever the files are, the context in which the statements of a file are
+    parsed holds, from its imports, only functions and variables that are public (`pub`: first character an upper-case letter)
+    in the file that defines them - so `alias.name` can resolve to nothing else, and a private or an undefined name of an
+    imported file is rejected like any unknown name. -/
+theorem imports_expose_only_public_names (depth : Nat) (fs : Parser.FileSys) (path : String) (importing : List String) (fuel : Nat)
+    (s0 s' : Parser.PSt) (r : Parser.Ctx × List Stmt)
+    (h : Parser.evalImports depth fs path importing fuel {} s0 = .ok r s') :
+    (∀ e ∈ r.1.funcs, e.2.pub = true) ∧ (∀ e ∈ r.1.vars, e.2.pub = true) :=
+  Parser.evalImports_pub fs path importing fuel s0 s' r h
 
 end Tsh.C09
